@@ -644,6 +644,14 @@ func (c *Ctx) ruleFailedKept(rr *RuleRep, rr18 *RuleRep) {
 			return false
 		}
 		isKeep := func(in ssa.Instruction) (bool, bool) {
+			if k, isCall := in.(*ssa.Call); isCall {
+				if g := c.StaticCalleeOf(&k.Call); g != nil && g.Pkg == c.Pkg {
+					if sum := c.keepSummary(a, g); sum != nil && sum.Keeps && sum.ErrIdx < len(k.Call.Args) && c.errOrigin(k.Call.Args[sum.ErrIdx]) == ssa.Value(call) {
+						return true, sum.Wrapped
+					}
+				}
+				return false, false
+			}
 			st, ok := in.(*ssa.Store)
 			if !ok {
 				return false, false
@@ -669,6 +677,14 @@ func (c *Ctx) ruleFailedKept(rr *RuleRep, rr18 *RuleRep) {
 				rr.Bad(key+"/keep", w.Pos(), "a failed %s can leave the request closure without its retry handle having been queued: the accepted request is lost when the connection breaks", api.Base)
 			}
 			flag := func(in ssa.Instruction) bool {
+				if k, isCall := in.(*ssa.Call); isCall {
+					if g := c.StaticCalleeOf(&k.Call); g != nil && g.Pkg == c.Pkg {
+						if sum := c.keepSummary(a, g); sum != nil && sum.Flags && sum.ErrIdx < len(k.Call.Args) && c.errOrigin(k.Call.Args[sum.ErrIdx]) == ssa.Value(call) {
+							return true
+						}
+					}
+					return false
+				}
 				st, ok := in.(*ssa.Store)
 				if !ok {
 					return false
@@ -721,4 +737,98 @@ func (c *Ctx) mustFollowFrom(f *ssa.Function, first ssa.Instruction, pred func(s
 	}
 	w, found := CanReach(f, first, realExit, PathQ{BlockInstr: pred, BlockEdge: exemptEdge})
 	return w, !found
+}
+
+// keepSummary: helper g(…, err, …) that, unless err is not an ErrorWithRetry (false edge of a comma-ok assertion on that
+// parameter), on every path tail-appends the Retry handle of err to the retry queue (Keeps, Wrapped) and sets the
+// retry flag (Flags).
+type keepSum struct {
+	ErrIdx                int
+	Keeps, Wrapped, Flags bool
+}
+
+func (c *Ctx) keepSummary(a *retryAnchors, g *ssa.Function) *keepSum {
+	if g.Blocks == nil || g == a.PushTask || g == a.OnError {
+		return nil
+	}
+	for idx, p := range g.Params {
+		tn := types.TypeString(p.Type(), func(*types.Package) string { return "" })
+		if tn != "error" && tn != "ErrorWithRetry" {
+			continue
+		}
+		var exempt []ifEdge
+		for _, b := range g.Blocks {
+			iff := blockIf(b)
+			if iff == nil {
+				continue
+			}
+			if ex, ok := iff.Cond.(*ssa.Extract); ok && ex.Index == 1 {
+				if ta, ok := ex.Tuple.(*ssa.TypeAssert); ok && ta.CommaOk && typeName(ta.AssertedType) == "ErrorWithRetry" && c.errOrigin(ta.X) == ssa.Value(p) {
+					exempt = append(exempt, ifEdge{b, 1})
+				}
+			}
+		}
+		isExempt := func(b *ssa.BasicBlock, k int) bool {
+			for _, e := range exempt {
+				if e.B == b && e.K == k {
+					return true
+				}
+			}
+			return false
+		}
+		wrapped := false
+		keep := func(in ssa.Instruction) bool {
+			st, ok := in.(*ssa.Store)
+			if !ok {
+				return false
+			}
+			if _, isRQ := isAddrOfField(st.Addr, a.RetryQueue); !isRQ {
+				return false
+			}
+			bs, elems, ok := c.appendChain(st.Val)
+			if !ok || len(elems) != 1 || elems[0].Single == nil {
+				return false
+			}
+			if _, isRQ := isLoadOfField(bs, a.RetryQueue); !isRQ {
+				return false
+			}
+			w, src, _ := c.retryHandleOf(a, elems[0].Single)
+			if src == ssa.Value(p) {
+				wrapped = w
+				return true
+			}
+			return false
+		}
+		flag := func(in ssa.Instruction) bool {
+			st, ok := in.(*ssa.Store)
+			if !ok {
+				return false
+			}
+			if _, ok := isAddrOfField(st.Addr, a.NewRetry); !ok {
+				return false
+			}
+			b, isK := constBool(st.Val)
+			return isK && b
+		}
+		first := g.Blocks[0].Instrs[0]
+		sum := &keepSum{ErrIdx: idx}
+		any := false
+		eachInstr(g, func(in ssa.Instruction) {
+			if keep(in) {
+				any = true
+			}
+		})
+		if !any {
+			continue
+		}
+		if _, ok := c.mustFollowFrom(g, first, keep, isExempt); ok {
+			sum.Keeps = true
+			sum.Wrapped = wrapped
+		}
+		if _, ok := c.mustFollowFrom(g, first, flag, isExempt); ok {
+			sum.Flags = true
+		}
+		return sum
+	}
+	return nil
 }
